@@ -211,7 +211,18 @@ def _run_cases1(pid, tag, cases):
     script = []
     for c in cases:
         script.append("case " + c.name); script.extend(instr_lines(c.lines))
-    impl, sides, model = run_scripts("%s/%s" % (pid, tag), script)
+    try:
+        impl, sides, model = run_scripts("%s/%s" % (pid, tag), script)
+    except RuntimeError as e:
+        if "vrun failed" not in str(e) or len(cases) == 1:
+            if "vrun failed" in str(e) and len(cases) == 1:
+                # the implementation died with a fatal runtime error (e.g. out of memory): every answer of the case is "panic"
+                n = len(instr_lines(cases[0].lines))
+                return [(cases[0], ["panic"] * n, [[] for _ in range(n)], ["unsupported"] * n)]
+            raise
+        out = []
+        for i, c in enumerate(cases): out.extend(_run_cases1(pid, "%s-one" % tag, [c]))
+        return out
     if len(impl) != len(model):
         raise RuntimeError("transcripts differ in length: impl %d model %d" % (len(impl), len(model)))
     out, pos = [], 0
